@@ -1,7 +1,7 @@
 """C04 — each reference genome is compared through its own signature, matched by ID."""
 import os
 
-from core import nats, natlists, optlist, hx, exc_kind
+from core import nats, natlists, optlist, hx, exc_kind, safe_check
 from props.c02 import bits
 import dbutil
 
@@ -123,7 +123,7 @@ def run(ctx):
 	rng = ctx.rng
 
 	def sub(case, tag):
-		lines, pf = check(ctx, case)
+		lines, pf = safe_check(check, ctx, case)
 		nt = case.pop('_nt', False)
 		ctx.submit(case, lines, nontrivial=nt, tags=[tag, f'attr={case.get("attr")}'], pyfails=pf)
 
